@@ -52,6 +52,11 @@ def run_time(rep, tier, seed):
             obj.scan = rng.randint(1, 4)
             descr = {'kind': 'raster', 'param': param, 'px': px, 'scan': obj.scan}
         raw = np.stack([obj._x, obj._y, obj._z, obj._f, obj._s]).astype(np.float64)
+        if rng.random() < 0.35:
+            # the estimate is read once, then the (public) number of scans is changed: the estimate must follow
+            _ = float(obj.fabrication_time)
+            obj.scan = obj.scan + rng.choice([1, 3]) if obj.scan < 3 else obj.scan - rng.choice([1, 2])
+            descr['scan_reassigned_to'] = obj.scan
         t = float(obj.fabrication_time)
         # one pass of the compiled program (index ratio 1, no other transformation)
         cfgd = dict(laser='PHAROS', n_glass=1.0, n_environment=1.0, output_digits=9, long_pause=rng.choice([0.5, None]), short_pause=0.1)
